@@ -189,6 +189,9 @@ pub enum Entry {
 #[derive(Clone, Debug, PartialEq, Eq, Hash)]
 pub struct RuleSet {
     pub name: String,
+    /// top-level `let`s written right before this rule set (visible in this and every later rule
+    /// set, not in earlier ones)
+    pub pre_lets: Vec<(String, Re)>,
     pub entries: Vec<Entry>,
 }
 
@@ -220,6 +223,7 @@ impl Spec {
             lets: vec![],
             sets: vec![RuleSet {
                 name: "Init".into(),
+                pre_lets: vec![],
                 entries: rules.into_iter().map(Entry::Rule).collect(),
             }],
         }
@@ -258,6 +262,11 @@ impl Spec {
         let mut m = BTreeMap::new();
         for (n, r) in &self.lets {
             m.insert(n.clone(), r.clone());
+        }
+        for s in self.sets.iter().take(set + 1) {
+            for (n, r) in &s.pre_lets {
+                m.insert(n.clone(), r.clone());
+            }
         }
         for e in self.sets[set].entries.iter().take(upto) {
             if let Entry::Let(n, r) = e {
@@ -585,6 +594,13 @@ impl Spec {
         v.push(Sx::L(lets));
         for s in &self.sets {
             let mut sv = vec![Sx::a("set"), Sx::a(&s.name)];
+            if !s.pre_lets.is_empty() {
+                let mut pv = vec![Sx::a("pre")];
+                for (n, r) in &s.pre_lets {
+                    pv.push(Sx::L(vec![Sx::a(n), r.to_sx()]));
+                }
+                sv.push(Sx::L(pv));
+            }
             for e in &s.entries {
                 sv.push(match e {
                     Entry::Let(n, r) => Sx::L(vec![Sx::a("let"), Sx::a(n), r.to_sx()]),
@@ -633,9 +649,16 @@ impl Spec {
             }
             let name = s[1].atom()?.to_string();
             let mut entries = vec![];
+            let mut pre_lets = vec![];
             for e in &s[2..] {
                 let e = e.list()?;
                 match e[0].atom()? {
+                    "pre" => {
+                        for l in &e[1..] {
+                            let l = l.list()?;
+                            pre_lets.push((l[0].atom()?.to_string(), Re::from_sx(&l[1])?));
+                        }
+                    }
                     "let" => entries.push(Entry::Let(e[1].atom()?.to_string(), Re::from_sx(&e[2])?)),
                     "rule" => entries.push(Entry::Rule(Rule {
                         id: e[1].num()? as u32,
@@ -649,7 +672,7 @@ impl Spec {
                     o => return Err(format!("bad entry {}", o)),
                 }
             }
-            sets.push(RuleSet { name, entries });
+            sets.push(RuleSet { name, pre_lets, entries });
         }
         Ok(Spec {
             error_type,
